@@ -1,14 +1,14 @@
 CONSTANTS
   Server = {1, 2, 3}
-  Campaigners = {1, 2, 3}
-  MaxTerm = 1
+  Campaigners = {1, 2}
+  MaxTerm = 2
   MaxProposals = 0
   MaxCrashes = 0
   MaxDrops = 0
   MaxDups = 0
   MaxHeartbeats = 0
-  MaxLog = 2
-  MaxNet = 6
+  MaxLog = 3
+  MaxNet = 4
   MaxEnts = 0
   LossySend = FALSE
   SimDepth = 0
@@ -18,11 +18,12 @@ CONSTANTS
   W_NoPersistVote = FALSE
   W_AppendAlwaysTruncates = FALSE
   W_HeartbeatCommitUnbounded = FALSE
-  W_QuorumMinusOne = TRUE
-  PreVote = FALSE
+  W_QuorumMinusOne = FALSE
+  PreVote = TRUE
   W_PreVoteRespCountsAsVote = FALSE
 INIT Init
 NEXT Next
 CONSTRAINT NetBound
 VIEW view
-INVARIANT EmitAttack
+INVARIANTS ElectionSafety LogMatching StateMachineSafety LeaderCompleteness CommitWithinLog PersistedMatchesVolatile MatchSound
+PROPERTY HardStateMonotonic
